@@ -1105,8 +1105,9 @@ func oracleC07(c *Case, o *Outcome, log []Access, mr *modelResult, treeAsserted 
 		res.count("c07:line-column-checked", 1)
 	} else {
 		// the end of the content is a position too: the column after the last byte of the last line
-		// (or column 1 of the line a final line break opens); only empty content has no line at all
-		if !((e.Line == wantLine && e.Column == wantCol) || (len(data) == 0 && e.Line == 0 && e.Column == 0)) {
+		// (or column 1 of the line a final line break opens); the end of an empty content is the
+		// beginning of line 1 (0:0 was tolerated here until finding F25)
+		if !(e.Line == wantLine && e.Column == wantCol) {
 			return "wrong-line-column", "wrong-line-column: end-of-file", fmt.Sprintf("error at end of %q (index %d = length) reports line %d column %d; that position is %d:%d", e.File, e.Index, e.Line, e.Column, wantLine, wantCol)
 		}
 		res.count("c07:line-column-checked(end-of-file)", 1)
